@@ -1003,7 +1003,7 @@ pub fn run_c08_http(ctx: &Ctx) {
 
 pub fn run_c05_dhcp_wire(ctx: &Ctx) {
     match DhcpWire::new("C05") {
-        Ok(rig) => run_wire(ctx, &rig, hostile_dhcp_strategy(), ctx.tier.pick(24, 1500), 1),
+        Ok(rig) => run_wire(ctx, &rig, hostile_dhcp_strategy(), ctx.tier.pick(24, 400), 1),
         Err(e) => ctx.assume(format!("DHCP wire tier unavailable: {}", e)),
     }
 }
@@ -1610,5 +1610,5 @@ pub fn run_c01_wire(ctx: &Ctx) {
         }
     };
     let prop = C01Race { raw };
-    run_wire(ctx, &prop, race_case_strategy(), ctx.tier.pick(40, 1500), 1);
+    run_wire(ctx, &prop, race_case_strategy(), ctx.tier.pick(40, 600), 1);
 }
